@@ -229,11 +229,13 @@ CHECKS["C19"] = dict(
 CHECKS["C20"] = dict(
     text="Theorems about the accessor models for every NumOps instance: negative and positive index address the same candle; "
          "reading_by_index = Indicator.reading on valid indices and None otherwise; as_list is the column of readings; has_reading = "
-         "latest reading is not None; reading_count = trailing run of readings. Falsifier: all accessors of Indicator and Hexital "
+         "latest reading is not None; reading_count = trailing run of readings. Tie: check_acc - the accessor models (as_list, reading, "
+         "read_candle, reading_count, has_reading, Hexital.reading/prev_reading/has_reading) re-compute on the candles of a calculated "
+         "Hexital every answer the implementation gave (plain, dotted and holed series, positive/negative indices). Falsifier: all accessors of Indicator and Hexital "
          "(plain and dotted names, all members and timeframes incl. filled ones longer than the default series) against direct candle inspection.",
-    note="The accessor models are tied to the code through their use inside the engine/analysis correspondences; Hexital-level "
-         "accessors are decided by the falsifier. Axioms: none.",
-    technique="Coq proof (Python-indexing lemmas) + falsifier", design="5/C20")
+    note="Members on their own timeframe are probed by the falsifier only (the accessor correspondence takes a member of the default "
+         "manager). Axioms: none.",
+    technique="Coq proof (Python-indexing lemmas) + vm_compute correspondence of the accessor models + falsifier", design="5/C20")
 
 NOT_YET = {}
 
